@@ -25,7 +25,8 @@ for d in sorted(glob.glob(os.path.join(V, "seeded", "C*"))):
         ok = "build_rc=0" in t and "demo_without_change_rc=0" in t and re.search(r"demo_with_change_rc=[1-9]", t) and "FAILED" not in t
         conf = "yes" if ok else "NO"
     except OSError:
-        conf = "-"
+        v = meta.get("verified", {})
+        conf = "by its author" if v and all(v.get(k) for k in ("compiles", "tests_pass", "demo_fails_with_change", "demo_passes_without")) else "-"
     pid, rc, cl = res.get(name, (meta.get("property"), "?", ""))
     det = {"1": "VIOLATION (%s)" % cl, "0": "missed", "2": "tool error", "?": "not run"}.get(rc, rc)
     s = re.sub(r"\s+", " ", meta.get("summary", ""))[:170].replace("|", "\\|")
